@@ -146,7 +146,7 @@ func (e *Engine) registerIntrinsics() {
 			if i > 0 {
 				res.b = append(res.b, sep.b...)
 			}
-			e := elemsOf(elems)[elems.off+i].(*StrV)
+			e := r.force(&elemsOf(elems)[elems.off+i]).(*StrV)
 			if e.opaque != nil {
 				return &StrV{opaque: UF("joined", 64, e.opaque)}
 			}
@@ -158,6 +158,10 @@ func (e *Engine) registerIntrinsics() {
 		in[p+".isNativeEndianLittle"] = func(r *Run, fr *Frame, cc *ssa.CallCommon, a []Value) Value { return True }
 	}
 	in["encoding/binary.Read"] = binaryRead
+	in["internal/bytealg.MakeNoZero"] = func(r *Run, fr *Frame, cc *ssa.CallCommon, a []Value) Value {
+		n := int(r.concretise(a[0].(*Term), "MakeNoZero"))
+		return r.makeSlice(types.Typ[types.Uint8], n, n)
+	}
 	in["internal/bytealg.CountString"] = func(r *Run, fr *Frame, cc *ssa.CallCommon, a []Value) Value {
 		s, c := a[0].(*StrV), a[1].(*Term)
 		n := BVi(0, 64)
@@ -186,6 +190,25 @@ func (e *Engine) registerIntrinsics() {
 
 func (r *Run) opaqueFormat(f *StrV, args *SliceV) *StrV {
 	fs, _ := f.Concrete()
+	if fs == "%04x" && args.len == 1 {
+		// exact model of the one numeric format whose text the library parses back (rc4 string-to-key)
+		if t, ok := elemsOf(args)[args.off].(*IfaceV).v.(*Term); ok && t.w >= 8 {
+			v := ZExt(t, 64)
+			if t.w == 64 {
+				v = t
+			}
+			digits := 4
+			for digits < 16 && !r.branchQuiet(ULt(v, BVu(1<<(4*uint(digits)), 64))) {
+				digits++
+			}
+			out := &StrV{}
+			for i := digits - 1; i >= 0; i-- {
+				n := Extract(v, 4*i+3, 4*i)
+				out.b = append(out.b, Ite(ULt(n, BVu(10, 4)), Add(ZExt(n, 8), BVu('0', 8)), Add(ZExt(n, 8), BVu('a'-10, 8))))
+			}
+			return out
+		}
+	}
 	h := fnv.New32a()
 	h.Write([]byte(fs))
 	var ts []*Term
@@ -219,6 +242,9 @@ func (r *Run) opaqueFormat(f *StrV, args *SliceV) *StrV {
 	}
 	return &StrV{opaque: UF(name, 64, ts...)}
 }
+
+// branchQuiet is branch for engine-internal case splits.
+func (r *Run) branchQuiet(c *Term) bool { return r.branch(c) }
 
 func binaryRead(r *Run, fr *Frame, cc *ssa.CallCommon, a []Value) Value {
 	rd := a[0]
